@@ -134,6 +134,7 @@ type whereevalT struct {
 	c        *Server
 	luaState *lua.LState
 	fn       *lua.LFunction
+	args     *lua.LTable // the ARGV of this filter
 }
 
 func (whereeval whereevalT) Close() {
@@ -190,6 +191,14 @@ func (whereeval whereevalT) match(fieldsWithNames map[string]field.Value,
 				"PROPERTIES": lua.LNil,
 			})
 	}()
+	if whereeval.args != nil {
+		// A hook or a live fence evaluates its filter long after the command
+		// that defined it has returned and cleared ARGV.
+		gt := whereeval.luaState.Get(lua.GlobalsIndex).(*lua.LTable)
+		prev := gt.RawGetString("ARGV")
+		gt.RawSetString("ARGV", whereeval.args)
+		defer gt.RawSetString("ARGV", prev)
+	}
 
 	whereeval.luaState.Push(whereeval.fn)
 	if err := whereeval.luaState.PCall(0, 1, nil); err != nil {
@@ -488,7 +497,7 @@ func (s *Server) parseSearchScanBaseTokens(
 					s.luascripts.PutLRU(shaSum, fn.Proto)
 				}
 				t.whereevals = append(t.whereevals, whereevalT{
-					c: s, luaState: luaState, fn: fn,
+					c: s, luaState: luaState, fn: fn, args: argsTbl,
 				})
 				continue
 			case "nofields":
